@@ -10,6 +10,11 @@ for m, tier in ((0, "quick"), (1, "quick"), (2, "quick"), (3, "quick"), (8, "tho
     QUERIES.append(Query("sign_assembly_m%d" % m, S, "harness_sign", defs=["SIGN", "MANT=%d" % m, "MSGLEN=%d" % (0 if m < 3 else 5)], unwind=140, timeout=2400, tier=tier, mem_gb=24, flags=["--max-field-sensitivity-array-size", "64"],
                          desc="rangeproof_sign_impl, mantissa class %d, on an output object of EXACTLY *plen bytes: documented-invalid arguments, message capacity, buffer too small (every size), blind >= n refused; reported length, placement, the written header decodes to the prover's parameters with min <= value <= max, size <= max_size" % m,
                          bounds="mantissa class %d (parameter derivation: arbitrary result satisfying the post-condition proved by params_*), message/extra data <= 8 bytes, buffer 0..need+8" % m))
+for m, e, hm in ((1, 0, 0), (3, 1, 1)):
+    QUERIES.append(Query("rewind_outputs_m%d" % m, "C10/h_c10.c", "harness_rewind_out", defs=["BODY", "REWIND", "MANT=%d" % m, "PLEN_DELTA=0", "HASMIN=%d" % hm, "EXPF=%d" % e], unwind=140, timeout=1500, mem_gb=8,
+                         flags=["--max-field-sensitivity-array-size", "6000"],
+                         desc="rewind mode of rangeproof_verify_impl (mantissa class %d, exponent %d): failed ring check / failed inner rewind => failure; on success (blind, value*scale+min) is re-committed and compared, and value_out / blind_out / message outputs are each delivered independently of which other outputs are requested" % (m, e),
+                         bounds="mantissa class %d; inner rewind and curve arithmetic opaque" % m))
 LEVEL_TEXT = ("Bounded model checking of range-proof creation: bit-precise parameter derivation per output exponent class with 192-bit reference arithmetic, and proof assembly per mantissa class on exact-size output objects "
               "with ring signer, randomness and curve arithmetic opaque: failure sets, buffer and message capacity, header round trip through the real header decoder, size bound.")
 ASSUMPTIONS = ["output exponent classes 0,1,2,17,18 and the exact-value class (quick), 3,15,16 (thorough); the middle classes 4..14 are NOT decided (nested /10, *10 arithmetic: no verdict in 900 s on any back end - DESIGN.md)",
@@ -17,5 +22,5 @@ ASSUMPTIONS = ["output exponent classes 0,1,2,17,18 and the exact-value class (q
                "sign assembly: parameter derivation replaced by an arbitrary result satisfying the proved post-condition; genrand, borromean_sign, pedersen_ecmult, pub_expand opaque", "64-bit limbs"]
 MANIFEST_ENTRY = {
     "text": "Bounded model checking of the real range-proof prover: secp256k1_range_proveparams for ALL 64-bit (value, min_value), exp -1..18, min_bits 0..64 inside output-exponent classes {exact, 0, 1, 2, 17, 18} (thorough +3, 15, 16): exact failure set (2^63 guards), v*10^exp + min == value without wrap, ring layout bounds, advertised max < 2^64, min <= value <= max (192-bit reference); rangeproof_sign_impl per mantissa class {0,1,2,3} (thorough 8) on output objects of exactly *plen bytes: invalid arguments, message capacity, every too-small buffer and blind >= n refused, nothing written past the buffer, reported length, header written decodes (real decoder) to the prover's parameters, size <= max_size.",
-    "note": "NOT decided: output exponent classes 4..14 (solver gives no verdict), that created proofs verify and rewind (ring equation / group law not encodable), proof-byte determinism, message lengths > 8 in the assembly harness. Trusted: CBMC/kissat, stubs.",
+    "note": "NOT decided: output exponent classes 4..14 (solver gives no verdict), that created proofs verify and rewind end-to-end (ring equation / group law not encodable; only the rewind OUTPUT block of verify_impl and, in C07, the inner rewind's memory safety are checked), proof-byte determinism, message lengths > 8 in the assembly harness. Trusted: CBMC/kissat, stubs.",
 }
